@@ -180,21 +180,32 @@ def r05_4(ctx):
             else:
                 r.violate(body.name, "mutate:rx_contexts", body.where(bi), "receive-context table mutated outside the unprotect wrappers")
     r.need("rx_contexts mutation sites", n, 3)
-    # table mutation (fresh-context insert, stale eviction) happens before the packet authenticates:
+    # growth/eviction of the table only after the triggering packet authenticated
+    GROW = ("::insert", "::or_insert", "::or_insert_with", "::retain", "::remove", "::clear")
     for fn in ("srtp::SrtpSession::unprotect_rtp", "srtp::SrtpSession::unprotect_rtcp"):
         body = ctx.body(fn)
-        unp = core.calls_to(body, suffix("srtp::SrtpContext::unprotect", "srtp::SrtpContext::unprotect_rtcp"))
-        if not unp:
-            raise core.CheckerError("R05.4: %s does not call SrtpContext::unprotect*" % fn)
-        ub = unp[0][0]
-        for bi, t, path in core.calls_to(body, suffix("srtp::SrtpSession::evict_stale_rx")):
-            # eviction of *other* SSRCs' contexts triggered by a not-yet-authenticated packet
-            if ub in core.reach_from(body, bi):
-                r.violate(fn, "call:evict_stale_rx", body.where(bi),
-                          "stale-context eviction is triggered before the triggering packet is authenticated "
-                          "(a burst of forged SSRCs can evict the rollover state of a quiet genuine stream)")
+
+        def authed(term, meaning, *_):
+            return term[0] == "discr" and meaning in ("Continue", "Ok") and mir.has(
+                term[1], lambda x: x[0] == "call" and x[1] in ("srtp::SrtpContext::unprotect", "srtp::SrtpContext::unprotect_rtcp"))
+        g = core.guard_edges(body, authed)
+        sites = [(bi, "call:evict_stale_rx") for bi, t, p in core.calls_to(body, suffix("srtp::SrtpSession::evict_stale_rx"))]
+        for bi, t, path in body.calls():
+            if path and any(path.endswith(m) for m in GROW) and t["a"]:
+                a0 = body.term_operand(t["a"][0])
+                if mir.has_field(a0, "rx_contexts"):
+                    sites.append((bi, "call:%s" % path.split("::")[-1]))
+        if not sites:
+            raise core.CheckerError("R05.4: no table growth/eviction site found in %s" % fn)
+        for bi, site in sites:
+            p_ = core.k1(body, [bi], g)[bi]
+            if p_ is None:
+                r.ok({"site": "%s %s" % (body.where(bi), site), "cut_by": "SrtpContext::unprotect* Ok"})
             else:
-                r.ok()
+                r.violate(fn, site, body.where(bi),
+                          "per-SSRC table grown/evicted before the triggering packet is authenticated "
+                          "(a burst of forged SSRCs can evict the rollover state of a quiet genuine stream)",
+                          core.describe_path(body, p_))
     return r
 
 
